@@ -7,7 +7,7 @@ b = json.load(open('/root/.vp/BASELINE.json'))
 stable = set(b['stable_pass'])
 pk = sys.argv[1:] or ['./...']
 env = dict(os.environ, GOFLAGS='-mod=mod', GOPROXY='off')
-p = subprocess.Popen(['go', 'test', '-json', '-vet=off', '-count=1', '-timeout', '25m'] + pk, cwd='/repo', env=env, stdout=subprocess.PIPE, stderr=subprocess.DEVNULL, text=True)
+p = subprocess.Popen(['go', 'test', '-json', '-vet=off', '-count=1', '-timeout', '25m'] + pk, cwd=os.environ.get('VERIF_BASELINE_REPO','/repo'), env=env, stdout=subprocess.PIPE, stderr=subprocess.DEVNULL, text=True)
 passed, failed, pkgs = set(), set(), set()
 for line in p.stdout:
     try:
